@@ -505,6 +505,8 @@ def _ov_item(eng: Any, cont: Any, key: Any) -> Any:
 
 
 def subscript(eng: Any, obj: Any, idx: Any) -> Any:
+    if hasattr(obj, "pyvc_getitem"):
+        return obj.pyvc_getitem(eng, idx)
     if isinstance(obj, SObj) or eng.is_repo_object(obj):
         return eng.call_dunder(obj, "__getitem__", [idx])
     if isinstance(obj, type) and not sym.is_sym(idx):
@@ -628,6 +630,9 @@ def _merge_table(eng: Any, pairs: list[tuple[Any, Any]], key: Any) -> Any:
 
 
 def store_subscript(eng: Any, obj: Any, idx: Any, v: Any) -> None:
+    if hasattr(obj, "pyvc_setitem"):
+        obj.pyvc_setitem(eng, idx, v)
+        return
     if isinstance(obj, SObj) or eng.is_repo_object(obj):
         eng.call_dunder(obj, "__setitem__", [idx, v])
         return
